@@ -245,6 +245,14 @@ func (e *Env) eval(v ssa.Value, depth int) Vec {
 			if e.IsFlags != nil && e.IsFlags(x.X) {
 				return OldByte()
 			}
+			// an element of a package-level array of integer constants (a lookup table): the bits all its cells share
+			if ia, ok := x.X.(*ssa.IndexAddr); ok {
+				if g, ok := ia.X.(*ssa.Global); ok {
+					if v, ok := tableJoin(g); ok {
+						return v.trunc(bitSize(x.Type()))
+					}
+				}
+			}
 		case token.XOR: // bitwise complement
 			in := e.eval(x.X, depth+1)
 			var out Vec
@@ -352,4 +360,71 @@ func (e *Env) eval(v ssa.Value, depth int) Vec {
 		return out
 	}
 	return TopVec()
+}
+
+// tableJoin: the join of all cells of a package-level array of integers that the package initialiser fills with
+// constants and nothing else writes (cells it does not store are zero).
+func tableJoin(g *ssa.Global) (Vec, bool) {
+	at, ok := g.Type().(*types.Pointer).Elem().Underlying().(*types.Array)
+	if !ok || g.Pkg == nil {
+		return Vec{}, false
+	}
+	if bt, ok := at.Elem().Underlying().(*types.Basic); !ok || bt.Info()&types.IsInteger == 0 {
+		return Vec{}, false
+	}
+	init := g.Pkg.Func("init")
+	if init == nil {
+		return Vec{}, false
+	}
+	// written only by the initialiser
+	if refs := g.Referrers(); refs != nil {
+		for _, r := range *refs {
+			ia, isIA := r.(*ssa.IndexAddr)
+			if !isIA || ia.Referrers() == nil {
+				continue
+			}
+			for _, r2 := range *ia.Referrers() {
+				if st, isSt := r2.(*ssa.Store); isSt && st.Addr == ssa.Value(ia) && st.Parent() != init {
+					return Vec{}, false
+				}
+			}
+		}
+	}
+	stored := int64(0)
+	out := Vec{}
+	first := true
+	for _, b := range init.Blocks {
+		for _, in := range b.Instrs {
+			st, ok := in.(*ssa.Store)
+			if !ok {
+				continue
+			}
+			ia, ok := st.Addr.(*ssa.IndexAddr)
+			if !ok || ia.X != ssa.Value(g) {
+				continue
+			}
+			k, ok := st.Val.(*ssa.Const)
+			if !ok {
+				return Vec{}, false
+			}
+			u, ok := constVal(k)
+			if !ok {
+				return Vec{}, false
+			}
+			stored++
+			if first {
+				out, first = Const(u), false
+			} else {
+				out = Join(out, Const(u))
+			}
+		}
+	}
+	if stored < at.Len() { // the rest of the cells are zero
+		if first {
+			out, first = Const(0), false
+		} else {
+			out = Join(out, Const(0))
+		}
+	}
+	return out, !first
 }
